@@ -999,7 +999,10 @@ class Job:
         self.__dict__.update(state)
         # We append to a list of jobs rather than replacing to support
         # transparent id updates between shallow copies of a job.
-        self.statepoint._jobs.append(self)
+        # While unpickling a job that has shallow copies, the (shared) state
+        # point object may not have been restored yet; its list of jobs is
+        # restored together with it.
+        self.statepoint.__dict__.setdefault("_jobs", []).append(self)
 
     def __deepcopy__(self, memo):
         cls = self.__class__
